@@ -242,6 +242,25 @@ Theorem c11_build_with_total : forall b encs, (forall e, In e encs -> length (fs
   exists st km, build_with b encs = Some (st, km).
 Proof. exact build_with_total. Qed.
 
+(* Fvar::user_to_normalized over all axes with the caller's output slice: the result never depends on what the slice
+   held before the call; an axis no setting mentions, and every entry beyond the axis count, is 0; no panic *)
+Theorem c11_normalize_ignores_buffer : forall axes maps settings buf buf', length buf = length buf' ->
+  user_to_normalized axes maps settings buf = user_to_normalized axes maps settings buf'.
+Proof. exact normalize_ignores_buffer. Qed.
+Theorem c11_normalize_unset_axis_default : forall axes maps settings buf out j,
+  user_to_normalized axes maps settings buf = Some out ->
+  (length axes <= j)%nat \/ (forall s, In s settings -> fst s <> tag_of (nth j axes (0, 0, 0, 0))) ->
+  length out = length buf /\ nth j out 0 = 0.
+Proof. exact normalize_unset_axis_default. Qed.
+Theorem c11_user_to_normalized_total : forall axes maps settings buf,
+  Forall (fun a => let '(_, mn, df, mx) := a in i32 mn /\ i32 df /\ i32 mx) axes -> Forall (fun s => i32 (snd s)) settings ->
+  exists out, user_to_normalized axes maps settings buf = Some out.
+Proof. exact user_to_normalized_total. Qed.
+Theorem c11_user_to_normalized_single : forall t mn df mx maps v old,
+  user_to_normalized [(t, mn, df, mx)] maps [(t, v)] [old]
+  = match user_to_normalized1 mn df mx (map_for maps 0) v with Some c => Some [c] | None => None end.
+Proof. exact user_to_normalized_single. Qed.
+
 Print Assumptions c11_ivs_retrieval.
 Print Assumptions c11_region_renumber_bijective.
 Print Assumptions c11_merge_covers.
@@ -284,3 +303,7 @@ Print Assumptions c11_split_encs_subtables.
 Print Assumptions c11_ivs_retrieval_every_schedule.
 Print Assumptions c11_build_schedule_total.
 Print Assumptions c11_build_with_total.
+Print Assumptions c11_normalize_ignores_buffer.
+Print Assumptions c11_normalize_unset_axis_default.
+Print Assumptions c11_user_to_normalized_total.
+Print Assumptions c11_user_to_normalized_single.
